@@ -61,6 +61,16 @@ type Subscription struct {
 	// is mutated by calls to Next.
 	currentItem *bufferItem
 
+	// snapshotIndex is the index of the last EndOfSnapshot event returned by Next
+	// (zero if none). The snapshot contains every change up to that index, but the
+	// events of a transaction are handed to the EventPublisher only after the
+	// transaction has committed: a batch that was committed before the snapshot was
+	// taken may be appended to the topic buffer after the snapshot was spliced
+	// onto it. Such batches are skipped rather than delivered again after the
+	// snapshot, which would make the indexes seen by the subscriber go backwards
+	// (and its view regress until the later events are re-applied).
+	snapshotIndex uint64
+
 	// closed is a channel which is closed when the subscription is closed. It
 	// is used to exit the blocking select.
 	closed chan struct{}
@@ -131,7 +141,15 @@ func (s *Subscription) Next(ctx context.Context) (Event, error) {
 		if len(next.Events) == 0 {
 			continue
 		}
-		return newEventFromBatch(s.req, next.Events), nil
+		event := newEventFromBatch(s.req, next.Events)
+		switch {
+		case event.IsEndOfSnapshot():
+			s.snapshotIndex = event.Index
+		case event.Index > 0 && event.Index <= s.snapshotIndex && !event.IsFramingEvent():
+			// already contained in the snapshot (zero is not a Raft index)
+			continue
+		}
+		return event, nil
 	}
 }
 
